@@ -73,6 +73,7 @@ fn cmd_seq(args: &[String]) {
     let seed: u64 = args[0].parse().unwrap();
     let n: u64 = args[1].parse().unwrap();
     let long = args[2] == "1";
+    let tree = args[2] == "2";
     let out = &args[3];
     let only: Option<u64> = args.get(4).and_then(|s| s.parse().ok());
     silence_panics();
@@ -87,7 +88,8 @@ fn cmd_seq(args: &[String]) {
     let mut failures = 0u64;
     for i in 0..n {
         let mut crng = rng.fork();
-        let case = seq::gen_case(&mut crng, seed.wrapping_mul(1_000_003).wrapping_add(i), long);
+        let cid = seed.wrapping_mul(1_000_003).wrapping_add(i);
+        let case = if tree { seq::gen_tree_case(&mut crng, cid) } else { seq::gen_case(&mut crng, cid, long) };
         if let Some(o) = only {
             if case.id != o {
                 continue;
@@ -113,7 +115,7 @@ fn cmd_seq(args: &[String]) {
         if run.stats.resizes + run.stats.treeified + run.stats.untreeified > 0 {
             nontrivial.insert(format!("{:?}", case.ops));
         }
-        if samples.len() < 3 && run.stats.resizes > 0 {
+        if samples.len() < 3 && (run.stats.resizes > 0 || run.stats.treeified > 0) {
             samples.push(seq::case_text(&case));
         }
         for (step, f) in &run.failures {
